@@ -193,6 +193,44 @@ func (s *TxStore) insertMemPoolTx(tx mwdb.DBTransaction, rec *TxRecord) error {
 		return nil
 	}
 
+	// Blocks and unconfirmed transactions are announced on separate queues,
+	// so a transaction can be handled after the block that confirmed its
+	// rival. It conflicts with the chain then and nothing would ever remove
+	// it from the pending set: refuse it.
+	nsCredits := tx.FetchBucket(s.bucketMeta.nsCredits)
+	for _, txIn := range rec.MsgTx.TxIn {
+		entries, err := getCreditsByTxHash(nsCredits, &txIn.PreviousOutPoint.Hash)
+		if err != nil {
+			return err
+		}
+		spent, unspent := false, false
+		for _, entry := range entries {
+			cred := credit{block: &BlockMeta{}}
+			if err = readRawCreditKey(entry.Key, &cred); err != nil {
+				return err
+			}
+			if cred.outPoint.Index != txIn.PreviousOutPoint.Index {
+				continue
+			}
+			if err = readCreditValue(entry.Value, &cred); err != nil {
+				return err
+			}
+			if cred.flags.Spent {
+				spent = true
+			} else {
+				unspent = true
+			}
+		}
+		if spent && !unspent {
+			logging.CPrint(logging.WARN, "unconfirmed transaction conflicts with a confirmed one",
+				logging.LogFormat{
+					"tx":    rec.Hash.String(),
+					"spent": txIn.PreviousOutPoint.String(),
+				})
+			return ErrSpentByMinedTx
+		}
+	}
+
 	logging.CPrint(logging.DEBUG, "Inserting unconfirmed transaction", logging.LogFormat{"tx": rec.Hash.String()})
 
 	v, err := valueUnmined(rec)
